@@ -23,6 +23,8 @@ pub enum OpSpec {
     Unreg(u64),
     UnregSig(c_int),
     Forbidden(c_int, u64),
+    /// register_signal_unchecked (the OS's verdict is passed through)
+    Unchecked(c_int, u64),
     Deliver(c_int),
     /// Wait until the kernel routes the signal to the library, then take one delivery.
     WaitDeliver(c_int),
@@ -40,6 +42,7 @@ pub fn parse_script(s: &str) -> Vec<OpSpec> {
             "U" => OpSpec::Unreg(a as u64),
             "S" => OpSpec::UnregSig(a as c_int),
             "X" => OpSpec::Forbidden(a as c_int, b),
+            "N" => OpSpec::Unchecked(a as c_int, b),
             "D" => OpSpec::Deliver(a as c_int),
             "W" => OpSpec::WaitDeliver(a as c_int),
             _ => panic!("bad op {}", tok),
@@ -70,7 +73,7 @@ pub struct World {
 
 fn run_op(w: &Arc<World>, op: &OpSpec) {
     match op {
-        OpSpec::Reg(sig, tag) | OpSpec::Forbidden(sig, tag) => {
+        OpSpec::Reg(sig, tag) | OpSpec::Forbidden(sig, tag) | OpSpec::Unchecked(sig, tag) => {
             sched::note("call_reg", *tag, *sig as u64);
             let canary = Canary { tag: *tag };
             let w2 = w.clone();
@@ -81,8 +84,13 @@ fn run_op(w: &Arc<World>, op: &OpSpec) {
                 w2.probe.store(tag2 as usize, Ordering::Relaxed);
                 sched::note("act_end", tag2, 0);
             };
+            let unchecked = matches!(op, OpSpec::Unchecked(..));
             let r = catch_unwind(AssertUnwindSafe(|| unsafe {
-                signal_hook_registry::register(*sig, action)
+                if unchecked {
+                    signal_hook_registry::register_signal_unchecked(*sig, action)
+                } else {
+                    signal_hook_registry::register(*sig, action)
+                }
             }));
             match r {
                 Ok(Ok(id)) => {
@@ -392,9 +400,15 @@ pub fn normalise(b: &Built, res: &RunResult) -> (Vec<String>, Vec<String>) {
         Outcome::Livelock | Outcome::StepLimit => {
             tail.push(Obj::new("livelock").int("t", 0).int("d", 0).int("hdepth", res.stuck.iter().map(|s| s.1 as i64).max().unwrap_or(0)).done())
         }
-        Outcome::Aborted(r) => {
-            tail.push(Obj::new("aborted").int("t", 0).int("d", 0).str("why", r).done())
-        }
+        Outcome::Aborted(r) if r.starts_with("watchdog") => tail.push(
+            Obj::new("livelock")
+                .int("t", 0)
+                .int("d", 0)
+                .int("hdepth", res.stuck.iter().map(|s| s.1 as i64).max().unwrap_or(0))
+                .str("why", r)
+                .done(),
+        ),
+        Outcome::Aborted(r) => tail.push(Obj::new("aborted").int("t", 0).int("d", 0).str("why", r).done()),
     }
     for (i, m) in &res.panics {
         tail.push(Obj::new("panic").int("t", *i as i64 + 1).int("d", 0).str("msg", m).done());
